@@ -241,7 +241,7 @@ BehavesRule(r) == [name |-> r.name, eff |-> Eff(r.name, r.props),
 BadGen == [ok |-> FALSE, name |-> "", span |-> ""]
 GenNames == {"retain_lines", "retain-lines", "dense", "readable"}
 GenCanon(n) == IF n = "retain-lines" THEN "retain_lines" ELSE n
-ParseGen(val) ==
+ParseGen(val, lax) ==
   IF val.ty = "str" THEN
     (IF val.v[1] \in GenNames THEN [ok |-> TRUE, name |-> GenCanon(val.v[1]), span |-> IF GenCanon(val.v[1]) = "retain_lines" THEN "" ELSE "80"] ELSE BadGen)
   ELSE IF val.ty # "obj" THEN BadGen
@@ -250,7 +250,7 @@ ParseGen(val) ==
     ELSE LET nv == Get(es, "name") IN
       IF nv.ty # "str" \/ nv.v[1] \notin GenNames THEN BadGen
       ELSE IF GenCanon(nv.v[1]) = "retain_lines" THEN
-        (IF DevUnitGeneratorIgnoresFields \/ Keys(es) = {"name"} THEN [ok |-> TRUE, name |-> "retain_lines", span |-> ""] ELSE BadGen)
+        (IF (lax /\ DevUnitGeneratorIgnoresFields) \/ Keys(es) = {"name"} THEN [ok |-> TRUE, name |-> "retain_lines", span |-> ""] ELSE BadGen)
       ELSE IF ~NoDup(es) \/ ~(Keys(es) \subseteq {"name", "column_span"}) THEN BadGen
       ELSE IF Has(es, "column_span") /\ (Get(es, "column_span").ty # "num" \/ Get(es, "column_span").v[1] \notin Usizes) THEN BadGen
       ELSE [ok |-> TRUE, name |-> nv.v[1], span |-> IF Has(es, "column_span") THEN Get(es, "column_span").v[1] ELSE "80"]
@@ -258,12 +258,12 @@ GenTriples(g) == <<"name", "str", g.name>> \o (IF g.name = "retain_lines" THEN <
 
 NoBundle == [on |-> FALSE, mode |-> DefaultMode("path"), ident |-> "", excl |-> <<>>]
 BadBundle == [ok |-> FALSE, b |-> NoBundle]
-ParseBundle(bes) ==
+ParseBundle(bes, lax) ==
   IF ~NoDup(bes) \/ ~(Keys(bes) \subseteq {"require_mode", "modules_identifier", "excludes"}) \/ ~Has(bes, "require_mode") THEN BadBundle
   ELSE IF ~ModeOf(Get(bes, "require_mode"), FALSE).ok THEN BadBundle
   ELSE IF Has(bes, "modules_identifier") /\ Get(bes, "modules_identifier").ty \notin {"str", "null"} THEN BadBundle
   ELSE IF Has(bes, "excludes") /\ Get(bes, "excludes").ty # "strs" THEN BadBundle
-  ELSE IF Has(bes, "excludes") /\ ~DevBundleExcludesUnchecked /\ \E i \in DOMAIN Get(bes, "excludes").v : ~ValidGlob(Get(bes, "excludes").v[i]) THEN BadBundle
+  ELSE IF Has(bes, "excludes") /\ ~(lax /\ DevBundleExcludesUnchecked) /\ \E i \in DOMAIN Get(bes, "excludes").v : ~ValidGlob(Get(bes, "excludes").v[i]) THEN BadBundle
   ELSE [ok |-> TRUE, b |-> [on |-> TRUE, mode |-> ModeOf(Get(bes, "require_mode"), FALSE),
                             ident |-> IF Has(bes, "modules_identifier") /\ Get(bes, "modules_identifier").ty = "str" THEN Get(bes, "modules_identifier").v[1] ELSE "",
                             excl |-> IF Has(bes, "excludes") THEN Get(bes, "excludes").v ELSE <<>>]]
@@ -273,24 +273,27 @@ NoCfg == [rules |-> <<>>, gen |-> BadGen, bundle |-> NoBundle, apply |-> <<>>, s
 Bad == [ok |-> FALSE, cfg |-> NoCfg]
 CanonKey(k) == IF k = "process" THEN "rules" ELSE k           \* #[serde(alias = "process")]
 TopKeys == {"rules", "generator", "bundle", "apply_to_files", "skip_files"}
-\* json5::from_str::<Configuration>
-Parse(t) ==
+\* json5::from_str::<Configuration>; lax = with the deviations of the code (FALSE: as the property demands)
+ParseX(t, lax) ==
   LET top == [i \in DOMAIN t.top |-> [t.top[i] EXCEPT !.k = CanonKey(@)]] IN
   IF ~NoDup(top) \/ ~(Keys(top) \subseteq TopKeys) THEN Bad
   ELSE IF Has(top, "rules") /\ Get(top, "rules").ty # "RULES" THEN Bad
   ELSE IF Has(top, "rules") /\ \E i \in DOMAIN t.rules : ~ParseRule(t.rules[i]).ok THEN Bad
-  ELSE IF Has(top, "generator") /\ ~ParseGen(Get(top, "generator")).ok THEN Bad
+  ELSE IF Has(top, "generator") /\ ~ParseGen(Get(top, "generator"), lax).ok THEN Bad
   ELSE IF Has(top, "bundle") /\ Get(top, "bundle").ty \notin {"BUNDLE", "null"} THEN Bad
-  ELSE IF Has(top, "bundle") /\ Get(top, "bundle").ty = "BUNDLE" /\ ~ParseBundle(t.bundle).ok THEN Bad
+  ELSE IF Has(top, "bundle") /\ Get(top, "bundle").ty = "BUNDLE" /\ ~ParseBundle(t.bundle, lax).ok THEN Bad
   ELSE IF Has(top, "apply_to_files") /\ ~FilterOK(Get(top, "apply_to_files")) THEN Bad
   ELSE IF Has(top, "skip_files") /\ ~FilterOK(Get(top, "skip_files")) THEN Bad
   ELSE [ok |-> TRUE, cfg |-> [
       rules  |-> IF Has(top, "rules") THEN [i \in DOMAIN t.rules |-> ParseRule(t.rules[i]).rule] ELSE DefaultRules,
-      gen    |-> IF Has(top, "generator") THEN ParseGen(Get(top, "generator")) ELSE ParseGen(S("retain_lines")),
-      bundle |-> IF Has(top, "bundle") /\ Get(top, "bundle").ty = "BUNDLE" THEN ParseBundle(t.bundle).b ELSE NoBundle,
+      gen    |-> IF Has(top, "generator") THEN ParseGen(Get(top, "generator"), lax) ELSE ParseGen(S("retain_lines"), lax),
+      bundle |-> IF Has(top, "bundle") /\ Get(top, "bundle").ty = "BUNDLE" THEN ParseBundle(t.bundle, lax).b ELSE NoBundle,
       apply  |-> IF Has(top, "apply_to_files") THEN Get(top, "apply_to_files").v ELSE <<>>,
       skip   |-> IF Has(top, "skip_files") THEN Get(top, "skip_files").v ELSE <<>>]]
+Parse(t) == ParseX(t, TRUE)
 Valid(t) == Parse(t).ok
+\* validity as C19 states it: unknown keys and invalid patterns are errors everywhere
+ValidIdeal(t) == ParseX(t, FALSE).ok
 
 \* serde_json::to_string(&Configuration)
 Ser(c) == [
